@@ -296,6 +296,9 @@ func zzvDamageValues(w *ref.CFWriter, offs []uint32) []uint32 {
 	}
 	lim := binary.LittleEndian.Uint32(w.Data[w.HdrLen:])
 	vals = append(vals, lim, lim-32)
+	// around the end of the hash table (the lowest offset a record or the limit may have)
+	tableEnd := w.HdrLen + 4 + 4*ref.CFBuckets
+	vals = append(vals, tableEnd-8, tableEnd-4, tableEnd-3, tableEnd-1, tableEnd, tableEnd+1, tableEnd+31, tableEnd+32)
 	// de-duplicate
 	seen := map[uint32]bool{}
 	var out []uint32
